@@ -29,6 +29,8 @@ def _bootstrap():
         print('HARNESS-ERROR: parso imported from %s, not from %s' % (parso.__file__, repo))
         sys.exit(2)
     sys.setrecursionlimit(10000)
+    from dst import pool
+    pool.limit_memory()
 
 
 def main(argv):
